@@ -254,10 +254,28 @@ int main(void)
 		} else if (!strcmp(w[0], "val") && n == 6 && tabidx(w[1]) >= 0) {
 			struct lrtr_ip_addr a;
 			unsigned long len, asn;
-			struct pfx_record *reason = NULL;
-			unsigned int rlen = 0;
+			/* the caller's (reason, reason_len) pair in the three states the API allows on entry: fresh; NULL with a
+			 * stale count (reason_len is an output only); the array of the previous call handed in for reuse */
+			static struct pfx_record *reason;
+			static unsigned int rlen;
+			static unsigned int valno;
 			enum pfxv_state st;
 			int rc;
+
+			switch (valno++ % 3) {
+			case 0:
+				free(reason);
+				reason = NULL;
+				rlen = 0;
+				break;
+			case 1:
+				free(reason);
+				reason = NULL;
+				rlen = 5;
+				break;
+			default:
+				break;
+			}
 
 			if (!parse_addr(w[2], w[3], &a) || !parse_uint(w[4], 255, &len) ||
 			    !parse_uint(w[5], 0xffffffffUL, &asn)) {
@@ -268,7 +286,13 @@ int main(void)
 						  &st);
 			if (rc != PFX_SUCCESS) {
 				printf("rc=%d\n", rc);
+				reason = NULL;
+				rlen = 0;
 				continue;
+			}
+			if (rlen && !reason) {
+				printf("REASON-NULL-WITH-COUNT-%u ", rlen);
+				rlen = 0;
 			}
 			/* cross-check with the reason-less entry point */
 			{
@@ -288,7 +312,6 @@ int main(void)
 				printf(" %s", b);
 			}
 			printf("\n");
-			free(reason);
 		} else if (!strcmp(w[0], "dump") && n == 2 && tabidx(w[1]) >= 0) {
 			printf("recs");
 			pfx_table_for_each_ipv4_record(&tabs[tabidx(w[1])], dump_cb, NULL);
